@@ -1,9 +1,14 @@
 // C07 (thorough tier): the real handleRequest / updateTXTimestamp called from
-// many goroutines at once under the Go race detector.  The binary is built with
-// -race and re-executes itself as a child (GORACE halt_on_error) so that a
-// reported data race, a panic or a deadlock of the child is an observation, not
-// a crash of the harness.  Afterwards the store must still satisfy the
-// structural invariants (checked by the C07 oracle on the final snapshot).
+// many goroutines at once under the Go race detector, on a store that was
+// filled to its real capacity first (eviction, heap.Pop and the stateless path
+// run concurrently with the ordinary paths).  The binary is built with -race
+// and re-executes itself as a child (GORACE halt_on_error) so that a reported
+// data race, a panic or a deadlock of the child is an observation, not a crash
+// of the harness.  The child records every call of every client (each client is
+// driven by one goroutine) and the clients' items before and after; the model is
+// run per client on its calls in program order (Coq: conc_client) - replies,
+// reported times and final items must be those of that sequential run.  The
+// workload is verifharness/c06lib.ConcRun, the same as kind tss.conc.
 package main
 
 import (
@@ -12,89 +17,18 @@ import (
 	"os/exec"
 	"strconv"
 	"strings"
-	"sync"
 	"time"
 
-	"example.com/scion-time/core/server"
-	"example.com/scion-time/core/timebase"
-	"example.com/scion-time/net/ntp"
-
+	"verifharness/c06lib"
 	"verifharness/lib"
 )
-
-type clock struct{}
-
-func (clock) Epoch() uint64                                     { return 0 }
-func (clock) Now() time.Time                                    { return time.Now().UTC() }
-func (clock) Drift(d time.Duration) time.Duration               { return 0 }
-func (clock) Step(offset time.Duration)                         {}
-func (clock) Adjust(offset, duration time.Duration, f float64) {}
-func (clock) Sleep(d time.Duration)                             {}
-
-func t64num(t ntp.Time64) uint64 { return uint64(t.Seconds)<<32 | uint64(t.Fraction) }
-
-func child(ng, nops int, seed uint64) {
-	timebase.RegisterClock(clock{})
-	var wg sync.WaitGroup
-	base := time.Unix(1717171717, 0).UTC()
-	for g := 0; g < ng; g++ {
-		wg.Add(1)
-		go func(g int) {
-			defer wg.Done()
-			r := lib.NewRng(seed + uint64(g)*977)
-			var lastRx ntp.Time64
-			for i := 0; i < nops; i++ {
-				cid := "c" + strconv.Itoa(r.Intn(6)) // clients shared between goroutines
-				var req ntp.Packet
-				req.SetVersion(ntp.VersionMax)
-				req.SetMode(ntp.ModeClient)
-				if r.Intn(2) == 0 {
-					req.OriginTime = lastRx
-				}
-				req.ReceiveTime = ntp.Time64{Seconds: uint32(r.U64()), Fraction: 1}
-				req.TransmitTime = ntp.Time64{Seconds: uint32(r.U64()), Fraction: 2}
-				rxt := base.Add(time.Duration(r.Intn(5000)) * time.Nanosecond) // many collisions
-				var txt time.Time
-				var resp ntp.Packet
-				server.VerifHandleRequest(cid, &req, &rxt, &txt, &resp)
-				lastRx = resp.ReceiveTime
-				t1 := txt
-				if r.Intn(3) != 0 {
-					t1 = txt.Add(time.Duration(1+r.Intn(100)) * time.Nanosecond)
-				}
-				server.VerifUpdateTXTimestamp(cid, rxt, &t1)
-			}
-		}(g)
-	}
-	wg.Wait()
-	s := server.VerifSnapshotTSS()
-	// print the final snapshot for the parent: one line per item, then the queue
-	for _, it := range s.Items {
-		es := make([]string, len(it.Entries))
-		for j, e := range it.Entries {
-			es[j] = lib.L(lib.U(t64num(e.Rxt)), lib.U(t64num(e.Txt)))
-		}
-		fmt.Printf("ITEM %s\n", lib.L(lib.I(int64(atoi(it.Key[1:]))), lib.U(t64num(it.Qval)), lib.I(int64(it.Qidx)), lib.L(es...)))
-	}
-	q := make([]string, len(s.Queue))
-	qv := map[string]uint64{}
-	for _, it := range s.Items {
-		qv[it.Key] = t64num(it.Qval)
-	}
-	for i, k := range s.Queue {
-		q[i] = lib.L(lib.I(int64(atoi(k[1:]))), lib.U(qv[k]))
-	}
-	fmt.Printf("QUEUE %s\n", lib.L(q...))
-}
-
-func atoi(s string) int { v, _ := strconv.Atoi(s); return v }
 
 func main() {
 	if len(os.Args) > 1 && os.Args[1] == "child" {
 		ng, _ := strconv.Atoi(os.Args[2])
 		nops, _ := strconv.Atoi(os.Args[3])
 		seed, _ := strconv.ParseUint(os.Args[4], 10, 64)
-		child(ng, nops, seed)
+		c06lib.RaceChild(ng, nops, seed)
 		return
 	}
 	a := lib.ParseArgs()
@@ -126,19 +60,19 @@ func main() {
 					status = int64(ee.ExitCode())
 				}
 			}
-		case <-time.After(10 * time.Minute):
+		case <-time.After(15 * time.Minute):
 			_ = cmd.Process.Kill()
 			<-done
 			status = 124
 		}
-		var items []string
-		queue := "[]"
+		clients, counts := "[]", "[]"
 		race := int64(0)
 		for _, line := range strings.Split(string(out), "\n") {
-			if strings.HasPrefix(line, "ITEM ") {
-				items = append(items, strings.TrimPrefix(line, "ITEM "))
-			} else if strings.HasPrefix(line, "QUEUE ") {
-				queue = strings.TrimPrefix(line, "QUEUE ")
+			if strings.HasPrefix(line, "CONC\t") {
+				p := strings.Split(line, "\t")
+				if len(p) == 3 {
+					clients, counts = p[1], p[2]
+				}
 			} else if strings.Contains(line, "WARNING: DATA RACE") {
 				race = 1
 			}
@@ -147,14 +81,18 @@ func main() {
 			fmt.Println("NOTE race run", rn, "exit status", status, "output tail:", tail(string(out), 600))
 		}
 		w.Case("tss.race", "nt,race", lib.V(lib.I(int64(rn[0])), lib.I(int64(rn[1])), lib.U(a.Seed+uint64(i))),
-			lib.V(lib.I(status), lib.I(race), lib.L(items...), queue))
+			lib.V(lib.I(status), lib.I(race), clients, counts))
 	}
 }
 
 func tail(s string, n int) string {
 	s = strings.ReplaceAll(s, "\n", " | ")
 	if len(s) > n {
-		return s[len(s)-n:]
+		s = s[len(s)-n:]
+	}
+	// a line of observations is not part of the diagnostics
+	if i := strings.LastIndex(s, "CONC"); i >= 0 {
+		s = s[:i]
 	}
 	return s
 }
